@@ -78,6 +78,9 @@ func c01VloopArgs(c *c01Case) ([]string, bool) {
 }
 
 func c01JudgeVloop(o *vh.Oracle, r *vh.Result, c *c01Case) error {
+	if c.CancelAt != 0 {
+		return nil // a cancelled run may stop anywhere in the loop; the model's loop has no cancellation
+	}
 	if o == nil || !c.Trace || c.Result == "" || c.Result == "hang" || strings.HasPrefix(c.Result, "panic") ||
 		strings.HasPrefix(c.Result, "err:harness") || strings.HasPrefix(c.Result, "plan-not-tiling") {
 		return nil
@@ -219,6 +222,49 @@ func c01VloopGen(rng *vh.Rand) c01Case {
 	}
 	c.Action = rng.Intn(3)
 	c.N = []int{1, 1, 2, 4}[rng.Intn(4)]
+	c.Sched = rng.U64() % 1000000
+	c.Trace = true
+	return c
+}
+
+// c01TinyPriorGen: in-place extraction onto a target that already holds a few bytes (fewer than,
+// exactly, or just more than the minimum / maximum chunk size, never zeros) for blobs with null
+// chunks at the start, in the middle or at the end, no seeds, no cloning: what is left of the old
+// content must not survive under a null chunk.
+func c01TinyPriorGen(rng *vh.Rand) c01Case {
+	var c c01Case
+	c.Min, c.Avg, c.Max = c02Triple(rng)
+	zeros := func(k int) []byte { return make([]byte, k) }
+	var blob []byte
+	shape := rng.Intn(4)
+	if shape == 0 || shape == 3 {
+		blob = append(blob, zeros(int(c.Max)*(1+rng.Intn(3))+rng.Intn(int(c.Max)))...)
+	}
+	blob = append(blob, rng.Bytes(rng.Intn(int(c.Max)*3))...)
+	if shape == 1 || shape == 3 {
+		blob = append(blob, zeros(int(c.Max)*(1+rng.Intn(2)))...)
+		blob = append(blob, rng.Bytes(rng.Intn(int(c.Max)))...)
+	}
+	if shape == 2 {
+		blob = append(blob, zeros(int(c.Max)*(1+rng.Intn(3)))...)
+	}
+	if len(blob) > 5800 {
+		blob = blob[:5800]
+	}
+	c.BlobHex = vh.Hex(blob)
+	c.Shape = fmt.Sprintf("null-chunks-%d+tiny-prior", shape)
+	sizes := []int{1, 2, 10, int(c.Min) - 1, int(c.Min), int(c.Min) + 1, int(c.Max) - 1, int(c.Max), int(c.Max) + 1, len(blob) - 1, len(blob) + 3}
+	n := sizes[rng.Intn(len(sizes))]
+	if n < 1 {
+		n = 1
+	}
+	prior := make([]byte, n)
+	for i := range prior {
+		prior[i] = byte(0x80 + rng.Intn(127))
+	}
+	c.Prior, c.PriorHex = "garbage", vh.Hex(prior)
+	c.Action = rng.Intn(3)
+	c.N = 1 + rng.Intn(3)
 	c.Sched = rng.U64() % 1000000
 	c.Trace = true
 	return c
